@@ -134,6 +134,8 @@ enum Move {
     AuxPair { r: usize, i: usize, i2: usize },
     /// remainder + c * prod (x - x_i)
     Remainder { c: u64 },
+    /// a shorter remainder: the interpolant of the committed one through the queried last-layer points
+    RemainderShorter,
 }
 
 struct Out {
@@ -265,6 +267,7 @@ fn run_e<B: BaseF, H: HF<B>, E: FieldElement<BaseField = B>>(shape: &Arc<Shape>,
     for c in [1u64, 2, 0xFFFF_FFFF] {
         moves.push(Move::Remainder { c });
     }
+    moves.push(Move::RemainderShorter);
     for m in moves {
         let desc = format!("{m:?}");
         if let Some(want) = only {
@@ -309,6 +312,71 @@ fn run_e<B: BaseF, H: HF<B>, E: FieldElement<BaseField = B>>(shape: &Arc<Shape>,
                 a[r][i] += E::ONE;
                 a[r][i2] -= rp.cc_trace[w + i] / rp.cc_trace[w + i2];
                 compensated = true;
+            },
+            Move::RemainderShorter => {
+                let last_domain = lde / folding.pow(layers as u32);
+                let g_last = B::get_root_of_unity(last_domain.trailing_zeros());
+                let mut pts: Vec<usize> = rp.positions.iter().map(|p| p % last_domain).collect();
+                pts.sort();
+                pts.dedup();
+                let rem: Vec<E> = proof.fri_proof.parse_remainder().unwrap();
+                let len = pts.len().next_power_of_two();
+                if len >= rem.len() {
+                    continue; // no shorter power-of-two length holds the queried points
+                }
+                let xs_last: Vec<E> = pts.iter().map(|p| E::from(offset * g_last.exp((*p as u64).into()))).collect();
+                let lo_rem: Vec<E> = rem.iter().rev().copied().collect();
+                let eval = |poly: &[E], x: E| poly.iter().rev().fold(E::ZERO, |acc, c| acc * x + *c);
+                // Lagrange interpolant through (x_i, rem(x_i)), low-to-high, padded to `len`
+                let mut lo = vec![E::ZERO; len];
+                for j in 0..xs_last.len() {
+                    let mut basis: Vec<E> = vec![E::ONE];
+                    let mut den = E::ONE;
+                    for (m, x) in xs_last.iter().enumerate() {
+                        if m == j {
+                            continue;
+                        }
+                        let mut next = vec![E::ZERO; basis.len() + 1];
+                        for (k, a) in basis.iter().enumerate() {
+                            next[k + 1] += *a;
+                            next[k] -= *a * *x;
+                        }
+                        basis = next;
+                        den *= xs_last[j] - *x;
+                    }
+                    let scale = eval(&lo_rem, xs_last[j]) / den;
+                    for (k, a) in basis.iter().enumerate() {
+                        lo[k] += *a * scale;
+                    }
+                }
+                if xs_last.iter().any(|x| eval(&lo, *x) != eval(&lo_rem, *x)) {
+                    mck::report::machinery("C03: mis-built shorter remainder");
+                }
+                if (0..lo_rem.len()).all(|k| lo_rem[k] == lo.get(k).copied().unwrap_or(E::ZERO)) {
+                    continue; // the committed remainder already has this degree: not a substitution
+                }
+                let hi: Vec<E> = lo.into_iter().rev().collect();
+                let bytes = proof.to_bytes();
+                let (mut tree, _) = r8::parse(&bytes, layout(cfg)).unwrap_or_else(|e| mck::report::machinery(&format!("C03: R8 parse: {}", e.0)));
+                let path = r8::find(&tree, "fri_proof.remainder.coefficients").unwrap();
+                if let r8::Node::Raw { bytes: b, .. } = r8::get_mut(&mut tree, &path) {
+                    use winter_utils::Serializable;
+                    let mut nb = vec![];
+                    for e in &hi {
+                        nb.extend(e.to_bytes());
+                    }
+                    *b = nb;
+                }
+                match Proof::from_bytes(&r8::to_bytes(&tree)) {
+                    Ok(p) => forged = Some(p),
+                    Err(_) => {
+                        // the proof format refuses this remainder length: rejected at decode time
+                        o.states += 1;
+                        o.transitions += 1;
+                        *o.rejected_by.entry("shorter remainder does not decode".into()).or_default() += 1;
+                        continue;
+                    },
+                }
             },
             Move::Remainder { c } => {
                 // last-layer points of the (folded) query positions
